@@ -1,7 +1,7 @@
 """C11 — ports are bounded FIFO channels with accurate capacity and notifications
 (spec/tick/Port.tla, driver ports/port)."""
-import json
-from vlib import core, objcheck
+import json, os
+from vlib import core, objcheck, tracecheck
 
 LEVEL = "model_checking"
 TECHNIQUE = ("TLA+ specification of one port (two bounded FIFO buffers, four required notifications) model-checked by "
@@ -9,12 +9,21 @@ TECHNIQUE = ("TLA+ specification of one port (two bounded FIFO buffers, four req
              "is replayed transition by transition, plus seeded random walks, on the real messaging.NewPort with a "
              "counting stub owner and stub connection; concurrent mode: from every state, one operation is parked inside the port at "
              "its own hook position while a second goroutine runs one or two operations, and the outcome must be explained by some "
-             "sequential order in the same graph (linearizability of pairs, required notifications contained in the observed ones)")
+             "sequential order in the same graph (linearizability of pairs, required notifications contained in the observed ones); "
+             "gated schedules: the first operation is also parked inside Meta() of the message it sends (the port validates the message "
+             "through the messaging.Msg interface) and inside each of the four notification callbacks, the racing goroutine is classified "
+             "as completed/blocked, and the recorded runs are judged a second time by TLC with the trace specification PortPairTrace.tla "
+             "(some position of the first operation within the second goroutine's sequence must be a behaviour of Port.tla's Next with the "
+             "recorded results, final contents and required notifications); free-running mode: owner and connection goroutines driven "
+             "only by the four notifications move numbered messages through one port, a lost notification leaves the transfer stuck")
 LEVEL_TEXT = ("exhaustive within bounds: every reachable state and transition of Port.tla for incoming/outgoing capacities "
               "1..2 (quick) / 1..3 (thorough, in != out included) and 2/3 message values is executed on the real port")
 LEVEL_NOTE = ("capacity-0 ports are out of scope; concurrency is covered for two goroutines and the interleavings reachable by parking "
-              "one operation at its hook position (deliver/send/retrievein/retrieveout against 16 one- or two-operation sequences), not "
-              "for arbitrary schedules; the port exposes no content accessor, so "
+              "one operation at its hook position, at a Meta() call of its message (send) or inside its own notification callback "
+              "(deliver/send/retrievein/retrieveout against 16 one- or two-operation sequences), plus unscheduled four-goroutine runs "
+              "(also under the race detector in thorough), not for arbitrary schedules; a window between two statements of the port "
+              "that contains no call into a harness object (message, hook, owner, connection) cannot be held open by a gate and is "
+              "reached only by the free-running mode; the port exposes no content accessor, so "
               "contents are compared through sizes, heads and CanSend/CanDeliver after every step, every retrieve result, and "
               "a full drain at the end of each history")
 
@@ -77,16 +86,16 @@ def concurrent_pairs(ck, g):
             continue
         _, steps = g.path_to(k)
         states.append({"node": idx[k], "path": [{"op": a["op"], "arg": a["arg"]} for a, _ in steps]})
-    O = lambda op, arg=0: {"op": op, "arg": arg}
+    O = lambda op, arg=0, gate=None: dict({"op": op, "arg": arg}, **({"gate": gate} if gate else {}))
     a_ops = [O("deliver", 2), O("send", 2), O("retrievein"), O("retrieveout")]
     b_seqs = [[O("deliver", 1)], [O("send", 1)], [O("retrievein")], [O("retrieveout")],
               [O("retrievein"), O("retrievein")], [O("retrievein"), O("numin")], [O("retrievein"), O("peekin")],
               [O("retrievein"), O("candeliver")], [O("retrieveout"), O("retrieveout")], [O("retrieveout"), O("numout")],
               [O("retrieveout"), O("peekout")], [O("retrieveout"), O("cansend")], [O("deliver", 1), O("numin")],
               [O("send", 1), O("numout")], [O("deliver", 1), O("retrievein")], [O("send", 1), O("retrieveout")]]
+    graph = {"nodes": nodes, "edges": edges, "states": states}
     out = core.harness(ck.binary("ports"), "portconc",
-                       {"nodes": nodes, "edges": edges, "states": states, "a_ops": a_ops, "b_seqs": b_seqs,
-                        "wait_us": 2000, "workers": 32, "max_mismatches": 200}, timeout=600)
+                       dict(graph, a_ops=a_ops, b_seqs=b_seqs, wait_us=2000, workers=32, max_mismatches=200), timeout=600)
     ck.cov["concurrent_cases"] = out["cases"]
     ck.cov["concurrent_a_parked_inside_port"] = out["a_parked_inside_port"]
     ck.cov["concurrent_b_blocked_until_release"] = out["b_blocked_until_release"]
@@ -96,17 +105,157 @@ def concurrent_pairs(ck, g):
     ck.cov["distinct_nontrivial"] += out["a_parked_inside_port"]
     for s in (out.get("samples") or [])[:2]:
         ck.sample({"concurrent": s}, cap=8)
-    ms = out.get("mismatches") or []
-    for m in ms:
-        if m["kind"] == "setup":
-            raise core.Broken("concurrent mode could not reach state %s: %s" % (json.dumps(m["state"]), json.dumps(m["observed"])))
-        pair = m["a"]["op"] + "||" + ";".join(o["op"] for o in m["b"])
-        cls = m["kind"] + (":" + ",".join(m.get("missing") or []) if m["kind"] == "missing_notification" else "")
-        desc = ("concurrent %s from state %s: observed %s is explained by no sequential order of Port.tla%s" % (
-            pair, json.dumps(m["state"]), json.dumps(m["observed"]),
-            " with its required notifications (missing: %s)" % ",".join(m.get("missing") or []) if m["kind"] == "missing_notification" else ""))
-        ck.report({"mode": "concurrent", "op": pair, "class": cls}, desc, {"driver": "portconc", "case": m})
+    report_concurrent(ck, out, "portconc")
     ck.note("concurrent pairs: %d cases (%d states x %d A x %d B), A parked inside the port in %d, B blocked until release in %d, "
             "B completed while A was parked in %d; %d mismatches" % (
                 out["cases"], len(states), len(a_ops), len(b_seqs), out["a_parked_inside_port"], out["b_blocked_until_release"],
-                out["b_completed_while_a_parked"], out.get("mismatch_count", len(ms))))
+                out["b_completed_while_a_parked"], out.get("mismatch_count", len(out.get("mismatches") or []))))
+    gated_schedules(ck, graph, b_seqs, O)
+    free_running(ck)
+
+
+def report_concurrent(ck, out, driver):
+    for m in out.get("mismatches") or []:
+        if m["kind"] == "setup":
+            raise core.Broken("concurrent mode could not reach state %s: %s" % (json.dumps(m["state"]), json.dumps(m["observed"])))
+        gate = m["a"].get("gate") or "hook"
+        pair = m["a"]["op"] + "||" + ";".join(o["op"] for o in m["b"])
+        cls = m["kind"] + (":" + ",".join(m.get("missing") or []) if m["kind"] == "missing_notification" else "")
+        desc = ("concurrent %s (first operation parked at its gate '%s') from state %s: observed %s is explained by no sequential "
+                "order of Port.tla%s" % (
+                    pair, gate, json.dumps(m["state"]), json.dumps(m["observed"]),
+                    " with its required notifications (missing: %s)" % ",".join(m.get("missing") or [])
+                    if m["kind"] == "missing_notification" else ""))
+        key = {"mode": "concurrent", "op": pair, "class": cls}
+        if gate != "hook":
+            key["gate"] = gate
+        ck.report(key, desc, {"driver": driver, "case": m})
+
+
+# where each gate sits relative to the port's mutex in the pinned tree (documentation of the schedule space; the driver
+# measures, per gate, how often the racing operation completed while A was parked and how often it had to wait)
+GATE_SITE = {
+    "send@meta": "Meta() of the message being sent, called by the port's validation before the capacity test and the push",
+    "send@notify": "inside Connection.NotifySend, after the push",
+    "deliver@notify": "inside Component.NotifyRecv, after the push",
+    "retrievein@notify": "inside Connection.NotifyAvailable, after the pop",
+    "retrieveout@notify": "inside Component.NotifyPortFree, after the pop",
+}
+
+
+def gated_schedules(ck, graph, b_seqs, O):
+    """Two-goroutine schedules controlled by gates that are NOT the operation's own hook position: the message object
+    (Send reads it through messaging.Msg.Meta) and the four notification callbacks (harness objects).  From every state of the
+    graph (all occupancies: empty, one, cap-1, full, for every capacity pair) goroutine A starts one operation and parks at the
+    gate; the controller starts the racing sequence on goroutine B, classifies it as completed / blocked (short timeout),
+    releases A and waits for both.  Same oracle as concurrent_pairs: results, drained final contents and required
+    notifications must be those of SOME sequential order of the operations in Port.tla's state graph."""
+    metas = ["meta1", "meta4"] if ck.tier == "quick" else ["meta1", "meta2", "meta3", "meta4"]
+    a_ops = [O("send", 2, m) for m in metas] + [O("send", 2, "notify"), O("deliver", 2, "notify"),
+                                                O("retrievein", 0, "notify"), O("retrieveout", 0, "notify")]
+    out = core.harness(ck.binary("ports"), "portconc",
+                       dict(graph, a_ops=a_ops, b_seqs=b_seqs, wait_us=2000, workers=32, max_mismatches=200,
+                            same_buffer_only=ck.tier != "quick", record=True,
+                            record_every=1 if ck.tier == "quick" else 8), timeout=900)
+    by_gate = out.get("by_gate") or {}
+    ck.cov["gated_schedules"] = out["cases"]
+    ck.cov["gated_a_parked_at_gate"] = out["a_parked_inside_port"]
+    ck.cov["gated_b_blocked_until_release"] = out["b_blocked_until_release"]
+    ck.cov["gated_b_completed_while_a_parked"] = out["b_completed_while_a_parked"]
+    ck.cov["gated_by_gate"] = {k: dict(zip(("cases", "a_parked", "b_completed_while_a_parked", "b_blocked_until_release"), v))
+                               for k, v in sorted(by_gate.items())}
+    ck.cov["gated_gate_sites"] = GATE_SITE
+    ck.cov["traces_validated_against_impl"] += out["cases"]
+    ck.cov["distinct_nontrivial"] += out["a_parked_inside_port"]
+    for s in (out.get("samples") or [])[:2]:
+        ck.sample({"gated": s}, cap=10)
+    if out["a_parked_inside_port"] == 0:
+        raise core.Broken("gated schedules: no operation ever parked at a gate (the gates are dead)")
+    for k in ("send@" + metas[0], "send@notify", "deliver@notify", "retrievein@notify", "retrieveout@notify"):
+        if not (by_gate.get(k) or [0, 0])[1]:
+            raise core.Broken("gated schedules: gate %s was never reached" % k)
+    report_concurrent(ck, out, "portconc")
+    tlc_judge(ck, out)
+    ck.note("gated schedules: %d (%d states x %d gated A x racing B%s), A parked at its gate in %d, B blocked until release in %d, "
+            "B completed while A was parked in %d; %d mismatches; per gate (cases/parked/B-inside/B-blocked): %s" % (
+                out["cases"], len(graph["states"]), len(a_ops), " on the same buffer" if ck.tier != "quick" else "",
+                out["a_parked_inside_port"], out["b_blocked_until_release"], out["b_completed_while_a_parked"],
+                out.get("mismatch_count", 0),
+                " ".join("%s=%s" % (k, "/".join(map(str, v))) for k, v in sorted(by_gate.items()))))
+
+
+def tlc_judge(ck, out):
+    """The gated runs in which A was parked, as records of spec/tick/PortPairTrace.tla: TLC accepts a record iff some
+    position of A within B, executed through Port.tla's own Next, returns the recorded values, ends in the recorded contents
+    and requires only notifications that were seen.  A rejected record is a violation; the run continues behind it."""
+    recs = sorted(out.get("records") or [], key=lambda r: r["id"])
+    go_rejected = {m.get("case_id") for m in out.get("mismatches") or []}
+    if not recs:
+        raise core.Broken("gated schedules: the driver returned no records for TLC")
+    judged, rejected, runs = 0, [], 0
+    rest = recs
+    while rest and runs < 4:
+        runs += 1
+        path = os.path.join(core.scratch("c11trace-"), "pairs.ndjson")
+        with open(path, "w") as f:
+            for r in rest:
+                f.write(json.dumps({k: r[k] for k in ("init", "a", "b", "final", "seen")}) + "\n")
+        v = tracecheck.validate(ck, ["tick", "common"], "PortPairTrace", "PortPairTrace.cfg", path, timeout=600)
+        if v.accepted:
+            judged += len(rest)
+            break
+        if v.matched is None:
+            raise core.Broken("PortPairTrace: the model left the statement while judging (invariant %s)" % v.invariant)
+        bad = rest[v.matched]
+        judged += v.matched + 1
+        rejected.append(bad)
+        rest = rest[v.matched + 1:]
+    ck.cov["gated_records_judged_by_tlc"] = judged
+    ck.cov["gated_records_rejected_by_tlc"] = len(rejected)
+    ck.cov["gated_tlc_runs"] = runs
+    for bad in rejected:
+        if bad["id"] in go_rejected:
+            continue  # already reported by the graph comparison, with the sequential orders attached
+        pair = bad["a"]["op"] + "||" + ";".join(o["op"] for o in bad["b"])
+        ck.report({"mode": "concurrent", "op": pair, "class": "rejected_by_trace_spec", "gate": bad["gate"].split("@")[1]},
+                  "gated run %s from state %s: TLC finds no position of the first operation within the second goroutine's sequence for "
+                  "which Port.tla returns %s / %s, ends in %s and requires only the notifications seen %s" % (
+                      bad["gate"] + "||" + ";".join(o["op"] for o in bad["b"]), json.dumps(bad["init"]), json.dumps(bad["a"]),
+                      json.dumps(bad["b"]), json.dumps(bad["final"]), json.dumps(bad["seen"])),
+                  {"driver": "portconc", "spec": "spec/tick/PortPairTrace.tla", "record": bad})
+    missed = [i for i in go_rejected if i in {r["id"] for r in recs[:judged]} and i not in {b["id"] for b in rejected}]
+    if missed and not rest:
+        raise core.Broken("the graph comparison rejected cases %s that TLC accepted: the two judges disagree" % missed[:5])
+    ck.note("TLC judged %d gated records with PortPairTrace (%d rejected, %d TLC runs)" % (judged, len(rejected), runs))
+
+
+def free_running(ck):
+    """No gates, four goroutines hammering one real port (owner sending / connection draining the outgoing
+    buffer, connection delivering / owner draining the incoming buffer), each party driven only by the four notifications of
+    the statement; a lost notification leaves the transfer stuck.  Quick: a short run on the plain build; thorough: plain and race-detector builds."""
+    caps = [[i, o] for i in (1, 2, 3) for o in (1, 2, 3)]
+    total = {"rounds": 0, "messages": 0, "mismatches": 0}
+    quick = ck.tier == "quick"
+    for race in ((False,) if quick else (False, True)):
+        out = core.harness(ck.binary("ports", race=race), "portstress",
+                           {"caps": caps, "msgs": 200 if quick else (150 if race else 400), "rounds": 3 if quick else 400,
+                            "seed": ck.seed, "yield_permille": 200, "budget_ms": 2000 if quick else 12000, "workers": 4,
+                            "max_mismatches": 3 if quick else 10}, timeout=300)
+        tag = "free_running_race" if race else "free_running"
+        ck.cov[tag] = {k: out[k] for k in ("rounds", "messages", "notifications", "producer_waited_for_free",
+                                             "producer_waited_for_available", "consumer_idled_until_send",
+                                             "consumer_idled_until_recv", "stopped_by_budget")}
+        total["rounds"] += out["rounds"]
+        total["messages"] += out["messages"]
+        total["mismatches"] += out.get("mismatch_count", 0)
+        ck.cov["traces_validated_against_impl"] += out["rounds"]
+        if out["rounds"] == 0 or out["producer_waited_for_free"] == 0 or out["consumer_idled_until_send"] < 2 * out["rounds"]:
+            raise core.Broken("free-running mode exercised no edge transitions: %s" % json.dumps(ck.cov[tag]))
+        for m in out.get("mismatches") or []:
+            cls = m["kind"] + (":" + ",".join(m.get("missing") or []) if m.get("missing") else "")
+            ck.report({"mode": "free_running", "op": "send||retrieveout||deliver||retrievein", "class": cls},
+                      "free-running owner and connection on one port with capacities in=%d out=%d%s: %s %s" % (
+                          m["caps"][0], m["caps"][1], " (race-detector build)" if race else "", cls, json.dumps(m["observed"])),
+                      {"driver": "portstress", "race": race, "case": m})
+    ck.note("free-running: %d rounds, %d messages through real ports (%s), %d mismatches" % (
+        total["rounds"], total["messages"], "plain build" if quick else "plain and race-detector builds", total["mismatches"]))
